@@ -8,8 +8,10 @@ PROP_BITS = (3, 4, 5, 6)    # monotone / rollback / early-exit clauses on the im
 
 
 def main(tier, seed):
+    mc.SCORER_LIMIT = 200       # the definitional score check (bit 6) is evaluated for C11 only
     return C04.main(tier, seed, prop=PROP, prop_bits=PROP_BITS, view=mc.C11View)
 
 
 def replay(path):
+    mc.SCORER_LIMIT = 200
     return C04.replay(path, prop=PROP)
